@@ -227,11 +227,13 @@ def bound_args(repo, fi, call):
     """{parameter name: argument expression} for a call to a function of the package (module-level, imported, or self.method),
     independent of keyword / positional spelling; defaults are filled in.  None when the callee cannot be resolved."""
     from .inline import _bind
-    from .model import FuncInfo
+    from .model import FuncInfo, ClassInfo
     f = call.func
     tgt, is_method = None, False
     if isinstance(f, ast.Name):
         tgt = repo.resolve_symbol(fi.module, f.id)
+        if isinstance(tgt, ClassInfo):          # constructor call: bind against __init__
+            tgt, is_method = tgt.methods.get("__init__"), True
     elif isinstance(f, ast.Attribute) and isinstance(f.value, ast.Name) and f.value.id == "self" and fi.cls is not None:
         tgt, is_method = fi.cls.methods.get(f.attr), True
     elif isinstance(f, ast.Attribute) and isinstance(f.value, ast.Name):
